@@ -227,3 +227,28 @@ pub fn c08(tier: Tier) -> i32 {
     rep.assume("the harness plays the three other authorities with their real keys (so all certificates are genuine); the node's own batches are the subject of C12/C13");
     rep.finish()
 }
+
+pub fn replay(v: &serde_json::Value) -> i32 {
+    let r = &v["replay"];
+    let t = r["node"].as_u64().unwrap_or(0) as usize;
+    let payloads: Vec<u8> = r["payload_masks"].as_array().cloned().unwrap_or_default().iter().map(|x| x.as_u64().unwrap_or(0) as u8).collect();
+    let mut seq = Vec::new();
+    for o in r["events"].as_array().cloned().unwrap_or_default() {
+        let o = o.as_str().unwrap_or("").to_string();
+        let num = |s: &str| s.chars().filter(|c| c.is_ascii_digit()).collect::<String>().parse::<usize>().unwrap_or(0);
+        let e = if o.starts_with("Propose") { Ev::Propose(num(&o)) } else if o.starts_with("Batch") { Ev::Batch(num(&o)) } else { Ev::Timer };
+        seq.push(e);
+    }
+    let w = World::new(&[1, 1, 1, 1]);
+    let (bad, _, (votes, commits, requests)) = run_one(&w, t, &payloads, &seq);
+    println!("payload masks {:?}, events {:?}: votes={} commits={} batch requests={}", payloads, seq, votes, commits, requests);
+    for (sig, what) in &bad {
+        println!("[{}] {}", sig, what);
+    }
+    if bad.is_empty() {
+        println!("replay did not reproduce a violation of C08");
+        0
+    } else {
+        1
+    }
+}
